@@ -26,12 +26,14 @@ pub const SUBS: &[SubDef] = &[
     SubDef { prop: "C16", name: "tls_many", oracle: tls_many },
     SubDef { prop: "C16", name: "dtls_many", oracle: dtls_many },
     SubDef { prop: "C16", name: "alias", oracle: alias },
+    SubDef { prop: "C16", name: "many_raw", oracle: many_raw },
 ];
 
 fn run(ctx: &Ctx) {
     ctx.run_tape("tls_many", tls_many, ctx.pick(8_000, 400_000), 1500);
     ctx.run_tape("dtls_many", dtls_many, ctx.pick(6_000, 300_000), 1500);
     ctx.run_tape("alias", alias, ctx.pick(10_000, 400_000), 500);
+    ctx.run_tape("many_raw", many_raw, ctx.pick(10_000, 400_000), 96);
 }
 
 fn ending(t: &mut Tape, dtls: bool, valid: &[u8]) -> (&'static str, Vec<u8>) {
@@ -187,6 +189,74 @@ fn dtls_many(t: &mut Tape, obs: &mut Obs) -> R {
         }
         Err(e) => ensure!(want.is_empty(), "C16:dtls:err-although-first-parses", "parse_dtls_plaintext_records failed with {} although {} record(s) parse", e, want.len()),
     }
+    Ok(())
+}
+
+/// the tape itself is the buffer: multi-record parsers vs the explicit loop, on arbitrary bytes
+fn many_raw(t: &mut Tape, obs: &mut Obs) -> R {
+    let mut buf = Vec::new();
+    while !t.exhausted() {
+        buf.push(t.u8());
+    }
+    // fold bytes at plausible header positions onto valid content types / small lengths so that several records line up
+    let mut off = 0;
+    while off + 5 <= buf.len() {
+        if buf[off] & 0x80 == 0 {
+            buf[off] = 0x14 + (buf[off] % 5);
+        }
+        buf[off + 3] = 0;
+        buf[off + 4] &= 0x1f;
+        off += 5 + buf[off + 4] as usize;
+    }
+    let fmt_tls = |r: IResult<&[u8], Vec<TlsPlaintext>>| match r {
+        Ok((rem, v)) => Ok((buf.len() - rem.len(), v.iter().map(|p| format!("{:?}{:?}", (p.hdr.record_type.0, p.hdr.version.0, p.hdr.len), conv::msgs(&p.msg))).collect::<Vec<_>>())),
+        Err(_) => Err(()),
+    };
+    let got = guard("tls_parser_many", || fmt_tls(tls_parser_many(&buf)))?;
+    let want = guard("parse_tls_plaintext loop", || {
+        let mut out = Vec::new();
+        let mut off = 0;
+        while off < buf.len() {
+            match parse_tls_plaintext(&buf[off..]) {
+                Ok((rem, p)) => {
+                    out.push(format!("{:?}{:?}", (p.hdr.record_type.0, p.hdr.version.0, p.hdr.len), conv::msgs(&p.msg)));
+                    off = buf.len() - rem.len();
+                }
+                Err(_) => break,
+            }
+        }
+        if out.is_empty() { Err(()) } else { Ok((off, out)) }
+    })?;
+    if let Ok((_, v)) = &want {
+        obs.class(&format!("records={}", v.len().min(5)));
+        if v.len() >= 2 {
+            obs.nontrivial(fnv64(&buf));
+            obs.sample(json!({"records": v.len(), "hex": hex_short(&buf)}));
+        }
+    } else {
+        obs.class("records=0");
+    }
+    ensure!(got == want, "C16:tls:raw", "tls_parser_many differs from repeated single-record parsing on {}: {} vs {}", hex_short(&buf), trunc(&format!("{:?}", got)), trunc(&format!("{:?}", want)));
+    // DTLS on the same bytes
+    let got = guard("parse_dtls_plaintext_records", || match parse_dtls_plaintext_records(&buf) {
+        Ok((rem, v)) => Ok((buf.len() - rem.len(), v.iter().map(|r| format!("{:?}", conv::dtls_record(r))).collect::<Vec<_>>())),
+        Err(_) => Err(()),
+    })?;
+    let want = guard("parse_dtls_plaintext_record loop", || {
+        let mut out = Vec::new();
+        let mut off = 0;
+        while off < buf.len() {
+            match parse_dtls_plaintext_record(&buf[off..]) {
+                Ok((rem, p)) => {
+                    out.push(format!("{:?}", conv::dtls_record(&p)));
+                    off = buf.len() - rem.len();
+                }
+                Err(_) => break,
+            }
+        }
+        if out.is_empty() { Err(()) } else { Ok((off, out)) }
+    })?;
+    ensure!(got == want, "C16:dtls:raw", "parse_dtls_plaintext_records differs from repeated single-record parsing on {}", hex_short(&buf));
     Ok(())
 }
 
